@@ -29,6 +29,10 @@ const rule = "cases = (call site x caller mechanism x skip j x wrapper depth x o
 
 var rec = ev.New("C19", rule)
 
+// a line longer than any buffer or limit one is likely to meet (64 KiB), for the Write and Print call sites
+var bigText = strings.Repeat("b", 70000)
+var bigLine = []byte(bigText + "\n")
+
 func TestMain(m *testing.M) {
 	code := m.Run()
 	rec.Flush()
